@@ -23,7 +23,8 @@ pub mod jsonwebtoken {
             ensures match r { Ok(a) => alg_of_str(s@) == Some(a), Err(_) => alg_of_str(s@) is None }
         { unimplemented!() }
     }
-    pub struct Header { pub typ: Option<String>, pub alg: Algorithm }
+    // deviation surface: the other header parameters jsonwebtoken exposes (the library itself never reads them)
+    pub struct Header { pub typ: Option<String>, pub alg: Algorithm, pub kid: Option<String>, pub jwk: Option<jwk::Jwk>, pub cty: Option<String>, pub jku: Option<String>, pub x5u: Option<String> }
     #[verifier::external_body]
     pub struct DecodingKey { _p: u8 }
     pub uninterp spec fn key_family(k: DecodingKey) -> Family;
@@ -86,6 +87,8 @@ pub mod jsonwebtoken {
         ensures r is Ok ==> r->Ok_0.header == hdr_of(token@) && r->Ok_0.claims.jclaims() == claims_of(token@),
     { unimplemented!() }
     pub open spec fn ref_strings(v: Seq<&String>) -> Seq<Seq<char>> { v.map_values(|s: &String| s@) }
+    #[verifier::external_body]
+    pub fn get_current_timestamp() -> (r: u64) ensures r == now() { unimplemented!() }
     pub struct TokenData<T> { pub header: Header, pub claims: T }
     impl Header {
         #[verifier::external_body]
